@@ -21,11 +21,16 @@ try:
             continue
         det = {}
         try:
-            for p in claimed:
+            def one(p):
                 r = subprocess.run(['./check', p, '--tier', 'quick', '--no-evidence', '--repo', WT], cwd=V, capture_output=True, text=True)
-                rules = sorted(set(re.findall(r'rule (R[0-9.]+) \[(\w+)\] instance "([^"]+)"', r.stdout)))
-                if r.returncode != 0:
-                    det[p] = ['%s %s (%s)' % (a, c, b) for a, b, c in rules][:6] or ['exit %d' % r.returncode]
+                return p, r.returncode, sorted(set(re.findall(r'rule (R[0-9.]+) \[(\w+)\] instance "([^"]+)"', r.stdout)))
+            import concurrent.futures as cf
+            first = one(claimed[0])      # (extracts the facts once; the others reuse them)
+            with cf.ThreadPoolExecutor(8) as ex:
+                rest = list(ex.map(one, claimed[1:]))
+            for p, rc, rules in [first] + rest:
+                if rc != 0:
+                    det[p] = ['%s %s (%s)' % (a, c, b) for a, b, c in rules][:6] or ['exit %d' % rc]
         finally:
             subprocess.run('git -C %s checkout -- . && git -C %s clean -fdq' % (WT, WT), shell=True)
         rows.append((name, what, det))
